@@ -88,10 +88,33 @@ func shuffled(n int, seed uint64) []int {
 type built struct {
 	serializers map[string]func() ([]byte, error)
 	verify      func() error // optional read-only verifier exercised in the concurrent sub-check
+	// faulty: calls that FAIL or are REFUSED half-way (a destination writer failing after k bytes, a
+	// value refused after part of it was serialised). They are "unrelated calls" of the property's
+	// histories: whatever they leave behind must not show in any later output.
+	faulty map[string]func(k int)
+}
+
+// failAfter accepts k bytes, then fails (every second one with a short write).
+type failAfter struct {
+	k     int
+	short bool
+}
+
+func (w *failAfter) Write(p []byte) (int, error) {
+	if len(p) <= w.k {
+		w.k -= len(p)
+		return len(p), nil
+	}
+	n := 0
+	if w.short {
+		n = w.k
+	}
+	w.k = 0
+	return n, fmt.Errorf("destination failed (injected by the harness)")
 }
 
 func build(in *Input, perm uint64) *built {
-	b := &built{serializers: map[string]func() ([]byte, error){}}
+	b := &built{serializers: map[string]func() ([]byte, error){}, faulty: map[string]func(int){}}
 	switch in.Kind {
 	case "bundle":
 		s := *in.Bundle
@@ -105,6 +128,7 @@ func build(in *Input, perm uint64) *built {
 			_, err := bb.WriteTo(&buf)
 			return buf.Bytes(), err
 		}
+		b.faulty["bundle.WriteTo -> failing writer"] = func(k int) { bb.WriteTo(&failAfter{k: k, short: k%2 == 1}) }
 		if len(bb.Exchanges) > 0 {
 			b.serializers["Response.EncodeHeader"] = func() ([]byte, error) { return bb.Exchanges[0].Response.EncodeHeader() }
 		}
@@ -130,6 +154,18 @@ func build(in *Input, perm uint64) *built {
 			var buf bytes.Buffer
 			err := e.Write(&buf)
 			return buf.Bytes(), err
+		}
+		b.faulty["Exchange.Write -> failing writer"] = func(k int) { e.Write(&failAfter{k: k, short: k%2 == 1}) }
+		b.faulty["Exchange.DumpExchangeHeaders -> failing writer"] = func(k int) { e.DumpExchangeHeaders(&failAfter{k: k, short: k%2 == 1}) }
+		b.faulty["AddSignatureHeader refused (URL not expressible as a structured-header string)"] = func(k int) {
+			e2 := *e
+			sg2 := *sg
+			if k%2 == 0 {
+				sg2.ValidityUrl = mustURL("https://a.example/validity?v=\u00e9")
+			} else {
+				sg2.CertUrl = mustURL("https://a.example/cert?c=\u00e9")
+			}
+			e2.AddSignatureHeader(&sg2)
 		}
 		b.serializers["Exchange.DumpExchangeHeaders"] = func() ([]byte, error) {
 			var buf bytes.Buffer
@@ -170,6 +206,7 @@ func build(in *Input, perm uint64) *built {
 		if err != nil {
 			panic(err)
 		}
+		b.faulty["CertChain.Write -> failing writer"] = func(k int) { cc.Write(&failAfter{k: k, short: k%2 == 1}) }
 		b.serializers["CertChain.Write"] = func() ([]byte, error) {
 			var buf bytes.Buffer
 			err := cc.Write(&buf)
@@ -218,6 +255,14 @@ func build(in *Input, perm uint64) *built {
 			}
 			pl = append(pl, structuredheader.ParameterisedIdentifier{Label: structuredheader.Token(fmt.Sprintf("label%d", m)), Params: params})
 		}
+		b.faulty["ParameterisedList.String refused"] = func(k int) {
+			bad := append(structuredheader.ParameterisedList{}, pl...)
+			bad = append(bad, structuredheader.ParameterisedIdentifier{Label: "last", Params: structuredheader.Parameters{"a": int64(k), "zz": []string{"unsupported type"}}})
+			bad.String()
+			if len(bad) > 0 {
+				bad[len(bad)-1].String()
+			}
+		}
 		b.serializers["ParameterisedList.String"] = func() ([]byte, error) {
 			s, err := pl.String()
 			return []byte(s), err
@@ -227,6 +272,11 @@ func build(in *Input, perm uint64) *built {
 		for i := 0; i < 1+in.N%4; i++ {
 			ll = append(ll, []structuredheader.Item{structuredheader.Token("accept-language"), "en", int64(i), gen.Filler(i, in.Tag)})
 		}
+		b.faulty["ListOfLists.String refused"] = func(k int) {
+			bad := append(structuredheader.ListOfLists{}, ll...)
+			bad = append(bad, []structuredheader.Item{structuredheader.Token("ok"), "not printable \x01"})
+			bad.String()
+		}
 		b.serializers["ListOfLists.String"] = func() ([]byte, error) {
 			s, err := ll.String()
 			return []byte(s), err
@@ -235,6 +285,7 @@ func build(in *Input, perm uint64) *built {
 		payload := gen.Filler(in.N*37, in.Tag)
 		for _, enc := range []mice.Encoding{mice.Draft02Encoding, mice.Draft03Encoding} {
 			enc := enc
+			b.faulty["mice.Encode/"+string(enc)+" -> failing writer"] = func(k int) { enc.Encode(&failAfter{k: k, short: k%2 == 1}, payload, 16) }
 			b.serializers["mice.Encode/"+string(enc)] = func() ([]byte, error) {
 				var buf bytes.Buffer
 				dg, err := enc.Encode(&buf, payload, 16)
@@ -400,8 +451,41 @@ var histProp = vh.Define("C18", "history", func(c HistCase, r *vh.R) {
 		r.Class("kind:" + c.Pool[i].Kind)
 	}
 	first := map[string][]byte{}
+	faults := 0
+	for _, call := range c.Calls {
+		if call >= 64 { // histories with failing calls: reference outputs are taken before the first of them
+			for oi := range objs {
+				for _, name := range names(objs[oi].serializers) {
+					out, err := objs[oi].serializers[name]()
+					if err != nil {
+						if !c.Pool[oi].Colliding {
+							r.Failf("serializer-error", "%s failed: %v", name, err)
+							return
+						}
+						out = []byte("error: " + err.Error())
+					}
+					first[fmt.Sprintf("%d/%s", oi, name)] = append([]byte{}, out...)
+				}
+			}
+			break
+		}
+	}
 	for step, call := range c.Calls {
 		oi := (call / 16) % len(objs)
+		if call >= 64 { // a failing / refused call on that object; its result is ignored
+			fs := make([]string, 0, len(objs[oi].faulty))
+			for n := range objs[oi].faulty {
+				fs = append(fs, n)
+			}
+			if len(fs) == 0 {
+				continue
+			}
+			sort.Strings(fs)
+			k := call % 16
+			objs[oi].faulty[fs[k%len(fs)]](k * k * 7)
+			faults++
+			continue
+		}
 		ns := names(objs[oi].serializers)
 		name := ns[(call%16)%len(ns)]
 		out, err := objs[oi].serializers[name]()
@@ -423,6 +507,9 @@ var histProp = vh.Define("C18", "history", func(c HistCase, r *vh.R) {
 	if len(c.Calls) >= 4 && len(c.Pool) >= 2 {
 		r.NT()
 	}
+	if faults > 0 {
+		r.Class("with-failed-or-refused-calls")
+	}
 })
 
 func TestPropHistory(t *testing.T) {
@@ -431,7 +518,7 @@ func TestPropHistory(t *testing.T) {
 		for i := rapid.IntRange(2, 4).Draw(t, "pool"); i > 0; i-- {
 			c.Pool = append(c.Pool, genInput(t))
 		}
-		c.Calls = rapid.SliceOfN(rapid.IntRange(0, 63), 4, 24).Draw(t, "calls")
+		c.Calls = rapid.SliceOfN(rapid.IntRange(0, 111), 4, 24).Draw(t, "calls")
 		return c
 	})
 }
